@@ -520,6 +520,28 @@ func init() {
 	// helpers (length, swapper) are provided by the engine.
 	stdStubs["sort.Slice"] = func(fr *frame, a []value) value { return sortSlice(fr, a, "pdqsort_func") }
 	stdStubs["sort.SliceStable"] = func(fr *frame, a []value) value { return sortSlice(fr, a, "stable_func") }
+	// math/rand: every outcome of a draw is a path
+	stdStubs["math/rand.NewSource"] = func(fr *frame, a []value) value { return iface{} }
+	stdStubs["math/rand.New"] = func(fr *frame, a []value) value {
+		cell := value(structure{})
+		return &cell
+	}
+	stdStubs["(*math/rand.Rand).Float64"] = func(fr *frame, a []value) value {
+		p := fr.i.p
+		c := p.choice(2)
+		p.draws = append(p.draws, Draw{Name: "rand.Float64", Kind: "choice", Cval: uint64(c)})
+		return []float64{0.25, 0.75}[c]
+	}
+	stdStubs["(*math/rand.Rand).Intn"] = func(fr *frame, a []value) value {
+		p := fr.i.p
+		n := a[1].(int)
+		if n <= 0 {
+			panic("invalid argument to Intn")
+		}
+		c := p.choice(n)
+		p.draws = append(p.draws, Draw{Name: "rand.Intn", Kind: "choice", Cval: uint64(c)})
+		return c
+	}
 	stdStubs["fmt.Errorf"] = func(fr *frame, a []value) value {
 		return mkError(fr, miniFormat(str(a[0]), a[1].([]value)))
 	}
